@@ -302,8 +302,8 @@ META["C05"] = dict(engine="dkg", note=DKG_NOTE,
          "sk_i = p(i) (hence any >= t of them sign under tpk), t = n included; a key off the polynomial or not matching its commitment "
          "=> no honest Ok. Tie: 18 scripted deviations x victim sets x (n,t) x schedules on real TBLS (TPS: monitors) with exact "
          "replay on the model; equivocating participant with/without self-acks on the full stack.")
-META["C01"] = dict(engine="dkg", note=DKG_NOTE + " Liveness of orchestrated signing is partial: known finding C01-a (loud: pre-signing "
-                   "query of a slower signer dropped after the peer finished); the silent-mode consequence of C14-a is repaired (b40b5e7).",
+META["C01"] = dict(engine="dkg", note=DKG_NOTE + " Liveness of orchestrated signing is not a theorem of this engine: it rests on the synchroniser (C07) and "
+                   "msg.Box (C14); the two stalls found here (loud: disc 2681e65; silent: msg.Box b40b5e7) are repaired and any failure is a violation.",
     text="Proved in Coq: with every party honest, every sent message delivered and no cancellation, in ANY interleaving of deliveries "
          "and wake-ups (early messages included) every party returns Ok with identical (tpk, pks) = (g^P(0), [g^P(i)]) and sk_i = P(i), "
          "P the sum of the dealt polynomials, for all 1 <= t <= n (uses C18_crosscheck_honest); for every digest and every list of >= t "
@@ -315,3 +315,15 @@ ENGINES["dkg"] = dict(path="coq/theories/Alg/{DKG,DKGSystem,DKGAlg}.v + coq/theo
                       props=["C05", "C01"],
                       kind="Coq phase machine of KeyGen/OnMsg + n-party system with Byzantine parties + algebraic instance; Go harness "
                            "driving real TBLS/TPS instances message by message and full LoudScheme/SilentScheme stacks in memory")
+
+# ---- C07 after the repair 2681e65 (a member also waits for the query of every other member)
+META["C07"]["text"] += (
+    " Third repair (2681e65, finding C01-a): a member completed as soon as it had its acknowledgements; the orchestrator then stops "
+    "serving the topic and the single query of a slower member was dropped. Model: queriesReceived / queries channel, TakeQuery, the "
+    "four error returns as classes, a Stop event (the member is handed no further message), variant flag fix_queries. Proved: teardown "
+    "safety for every interleaving of an exact honest run (when a member has completed, it has handled the query of every other member "
+    "and has sent each of them its acknowledgement with exactly the agreed list -- also stated for the state before the completing step); "
+    "refuted for the previous code with a witness from which NO continuation lets the slower member complete; refuted in the presence "
+    "of a Byzantine configured member (queries, like acknowledgements, are counted from any configured peer). Whole-run family "
+    "'teardown' (members stop being served once their Synchronize is through, all must still complete): fails in about half of the runs on "
+    "the previous code, never on the repaired code.")
